@@ -62,7 +62,55 @@ def dispatcher_consts():
         raise TranslatorError("execute_action: fall-through return is not literal")
     if v.value is not None:
         raise TranslatorError(f"execute_action: fall-through value is {v.value!r}, not None")
-    return {"reraises": reraises, "forwards_llm": forwards_llm, "status": st.value}
+    return {"reraises": reraises, "forwards_llm": forwards_llm, "status": st.value,
+            "lazy": _handler_is_lazy(gen_h)}
+
+
+LOG_METHODS = {"debug", "info", "warning", "error", "exception", "critical"}
+
+
+def _handler_is_lazy(handler) -> bool:
+    """The generic handler must not EVALUATE the exception object (or the action parameters): an
+    exception whose __str__/__repr__ raises, formatted eagerly (f-string, %, str(), .format), would
+    escape the dispatcher.  Allowed uses of `e` / `filtered_params` / `params`:
+      * a positional argument of log.<method>(<constant format string>, ...)  (formatted lazily and
+        inside logging's own error handling), or the sole argument of log.exception(e);
+      * `params.items()` as the iterable of the comprehension that builds `filtered_params`.
+    Anything else => not lazy."""
+    exc_name = handler.name
+    watched = {exc_name, "filtered_params", "params"}
+    parents = {}
+    for stmt in handler.body:
+        for n in ast.walk(stmt):
+            for c in ast.iter_child_nodes(n):
+                parents[c] = n
+    for stmt in handler.body:
+        for n in ast.walk(stmt):
+            if not (isinstance(n, ast.Name) and n.id in watched and isinstance(n.ctx, ast.Load)):
+                continue
+            par = parents.get(n)
+            # log.method("constant", ..., n, ...) / log.exception(n)
+            if isinstance(par, ast.Call) and isinstance(par.func, ast.Attribute) and isinstance(par.func.value, ast.Name) \
+                    and par.func.value.id == "log" and par.func.attr in LOG_METHODS and n in par.args and not par.keywords:
+                first = par.args[0]
+                if first is n and par.func.attr == "exception" and len(par.args) == 1:
+                    continue
+                if first is not n and isinstance(first, ast.Constant) and isinstance(first.value, str):
+                    continue
+                return False
+            # params.items() as a comprehension iterable
+            if n.id == "params" and isinstance(par, ast.Attribute) and par.attr == "items":
+                call = parents.get(par)
+                comp = parents.get(call)
+                if isinstance(call, ast.Call) and isinstance(comp, ast.comprehension) and comp.iter is call:
+                    continue
+            return False
+    # no eager formatting construct at all in the handler
+    for stmt in handler.body:
+        for n in ast.walk(stmt):
+            if isinstance(n, ast.JoinedStr):
+                return False
+    return True
 
 
 def _event_list(fn):
@@ -294,6 +342,8 @@ def c03_consts():
         "(* --- actions/action_dispatcher.py::execute_action --- *)",
         f"Definition dispatch_reraises : bool := {coq_bool(d['reraises'])}.",
         f"Definition dispatch_forwards_llm_exception : bool := {coq_bool(d['forwards_llm'])}.",
+        "(* the generic handler never evaluates the exception object or the parameters (lazy logging only) *)",
+        f"Definition dispatch_handler_lazy : bool := {coq_bool(d['lazy'])}.",
         f"Definition dispatch_failed_status : string := {coq_str(d['status'])}.",
         "(* --- colang/v1_0/runtime/runtime.py --- *)",
         f"Definition v1_failed_status_test : string := {coq_str(r1['status'])}.",
